@@ -488,7 +488,7 @@ func propC02() *PropSpec {
 				js = append(js, jobsN("js", "VerifJSGetName", []int{2, 3}, "getName/getIndex on all indices up to three characters")...)
 			}
 			js = append(js, jobsN("js", "VerifJSRename", []int{0}, "one function/arrow with two statements, with-statement symbolic")...)
-			js = append(js, jobsN("js", "VerifJSRenameChain", []int{0}, "three nested functions with symbolic uses/declarations per level")...)
+			js = append(js, jobsN("js", "VerifJSRenameChain", []int{0, 1}, "0: three nested functions with parameters; 1: four nested parameterless functions/arrows around one outer variable")...)
 			js = append(js, Job{Pkg: "js", Fn: "VerifJSEvalTwin", N: 0, ExpectFail: true, Desc: "vacuity twin"})
 			return js
 		},
